@@ -26,7 +26,8 @@ pub fn jump_if(stack: &mut Stack, pc: usize) -> OpResult<Option<ProgramControlFl
     let cond = bool_from_word(cond).ok_or(TotalControlFlowError::InvalidJumpForwardIfCondition)?;
     if cond {
         let neg = dist < 0;
-        let dist = usize::try_from(dist.abs()).map_err(|_| StackError::IndexOutOfBounds)?;
+        let dist =
+            usize::try_from(dist.unsigned_abs()).map_err(|_| StackError::IndexOutOfBounds)?;
         if dist == 0 {
             return Err(TotalControlFlowError::JumpedToSelf.into());
         }
